@@ -1,6 +1,6 @@
 (* C16: proofs about the literal readers of LitModel.v *)
 From Coq Require Import ZArith NArith QArith List Ascii Bool Lia ZifyBool Zify.
-From OsmtV.Num Require Import Chars Gen_RealString LitModel.
+From OsmtV.Num Require Import Chars Gen_RealString Gen_Normalize LitModel.
 Import ListNotations.
 Local Open Scope N_scope.
 
@@ -277,15 +277,18 @@ Proof.
   rewrite IH by assumption. unfold digits_val_acc. cbn [fold_left]. do 2 f_equal. lia.
 Qed.
 
-Lemma mpz_set_str_pos c d : is_posdig c = true -> all_digits d = true ->
-  mpz_set_str (c :: d) 0 = Some (Z.of_N (digits_val (c :: d))).
+Definition ok_base (b : N) : Prop := b = 0 \/ b = 10.
+
+Lemma mpz_set_str_pos b c d : ok_base b -> is_posdig c = true -> all_digits d = true ->
+  mpz_set_str (c :: d) b = Some (Z.of_N (digits_val (c :: d))).
 Proof.
-  intros Hc Hd. unfold mpz_set_str.
+  intros Hb Hc Hd. unfold mpz_set_str.
   cbn [skip_spaces]. rewrite (posdig_nspace c Hc). cbn [has_minus strip_minus]. rewrite (posdig_nminus c Hc).
-  destruct (gmp_digit_digit c (posdig_digit c Hc)) as [-> Hlt]. cbn [N.eqb].
-  replace (10 <=? digit_val c) with false by (symmetry; apply N.leb_gt; exact Hlt).
-  rewrite (posdig_nz c Hc). cbn [skip_zeros_spaces]. rewrite (posdig_nz c Hc), (posdig_nspace c Hc). cbn [orb].
-  rewrite gmp_digits_10 by (now apply all_digits_pos). reflexivity.
+  destruct (gmp_digit_digit c (posdig_digit c Hc)) as [-> Hlt].
+  destruct Hb as [-> | ->]; cbn [N.eqb Pos.eqb];
+    (replace (10 <=? digit_val c) with false by (symmetry; apply N.leb_gt; exact Hlt));
+    rewrite ?(posdig_nz c Hc); cbn [skip_zeros_spaces]; rewrite (posdig_nz c Hc), (posdig_nspace c Hc); cbn [orb];
+    rewrite gmp_digits_10 by (now apply all_digits_pos); reflexivity.
 Qed.
 
 Lemma split_slash_digits a b : all_digits a = true -> split_slash (a ++ slash :: b) = Some (a, b).
@@ -317,14 +320,14 @@ Lemma signed_comp neg a b : (a == b)%Q -> (signed neg a == signed neg b)%Q.
 Proof. intros H. destruct neg; cbn; [now rewrite H | assumption]. Qed.
 
 (* the text the third pass builds, through normalize *)
-Lemma normalize_built c d k neg : is_posdig c = true -> all_digits d = true ->
-  exists q, normalize ((c :: d) ++ slash :: ch 49 :: zeros k) neg = StrVal q /\
+Lemma normalize_built b c d k neg : ok_base b -> is_posdig c = true -> all_digits d = true ->
+  exists q, normalize_b b ((c :: d) ++ slash :: ch 49 :: zeros k) neg = StrVal q /\
             (q == signed neg (inject_Z (Z.of_N (digits_val (c :: d))) / pow10Q k))%Q /\ Qred q = q.
 Proof.
-  intros Hc Hd. unfold normalize, mpq_set_str.
+  intros Hb Hc Hd. unfold normalize_b, mpq_set_str.
   rewrite split_slash_digits by (now apply all_digits_pos).
   rewrite mpz_set_str_pos by assumption.
-  rewrite (mpz_set_str_pos (ch 49) (zeros k) posdig_49 (all_digits_zeros k)). cbn [snd].
+  rewrite (mpz_set_str_pos b (ch 49) (zeros k) Hb posdig_49 (all_digits_zeros k)). cbn [snd].
   rewrite digits_val_one_zeros. destruct (pow10_pos k) as [p Hp]. unfold mpq_canon. rewrite Hp.
   eexists. split; [reflexivity|]. split.
   - unfold pow10Q. rewrite Hp. destruct neg; cbn [signed]; rewrite !Qred_correct, Qmake_div; reflexivity.
@@ -334,7 +337,8 @@ Qed.
 (* ---- assembling stringToRational on decimals ----------------------------------------------------- *)
 Definition dot_part (fp : str) : str := match fp with [] => [] | _ => dot :: fp end.
 
-Definition s2r_core (is_neg : bool) (flo : str) : str_result :=
+Definition s2r_core (b : N) (is_neg : bool) (flo : str) : str_result :=
+  let normalize := normalize_b b in
   match p1_run (Build_p1 0 0 0 false) flo with
   | None => StrExc
   | Some t =>
@@ -349,7 +353,7 @@ Definition s2r_core (is_neg : bool) (flo : str) : str_result :=
            end
          end
   end.
-Lemma s2r_unfold s : string_to_rational s = s2r_core (has_minus s) (strip_minus s).
+Lemma s2r_unfold b s : string_to_rational_b b s = s2r_core b (has_minus s) (strip_minus s).
 Proof. reflexivity. Qed.
 
 Lemma sign_strip neg c r : is_digit c = true ->
@@ -382,14 +386,17 @@ Lemma step_dot_0 n z f : p1_step (Build_p1 0 n z f) dot = Some (Build_p1 4 n z f
 Lemma step_dot_1 n z f : p1_step (Build_p1 1 n z f) dot = Some (Build_p1 2 n z f). Proof. reflexivity. Qed.
 Lemma p2_dot_0 den z : p2_step (Build_p2 0 den z) dot = Build_p2 1 den z. Proof. reflexivity. Qed.
 
+Lemma normalize_zero b : ok_base b -> normalize_b b [ch 48] false = StrVal 0.
+Proof. intros [-> | ->]; reflexivity. Qed.
+
 (* no fractional part *)
-Lemma s2r_int Z D neg : starts_pos D -> all_digits D = true ->
-  exists q, s2r_core neg (zeros Z ++ D) = StrVal q /\
+Lemma s2r_int b Z D neg : ok_base b -> starts_pos D -> all_digits D = true ->
+  exists q, s2r_core b neg (zeros Z ++ D) = StrVal q /\
             (q == signed neg (dec_value (zeros Z ++ D) []))%Q /\ Qred q = q.
 Proof.
-  intros [->|(c & d & -> & Hc)] HA; unfold s2r_core.
+  intros Hb [->|(c & d & -> & Hc)] HA; unfold s2r_core.
   - rewrite (p1_zeros_0 Z 0 0 false []). cbn [p1_run p1_frac p1_nom].
-    exists 0%Q. split; [reflexivity|]. split; [|reflexivity].
+    exists 0%Q. split; [now apply normalize_zero|]. split; [|reflexivity].
     unfold dec_value. rewrite !app_nil_r. rewrite <- (app_nil_r (zeros Z)), digits_val_zeros_lead.
     destruct neg; reflexivity.
   - rewrite all_digits_cons in HA. apply andb_true_iff in HA. destruct HA as [_ Hd].
@@ -400,18 +407,18 @@ Proof.
     rewrite p3_skip_zeros.
     pose proof (p3_copy_start c d 0 [] Hc Hd) as H3. rewrite Nat.add_0_r, app_nil_r, p3_zero_any in H3. cbn [option_map] in H3.
     rewrite app_nil_r in H3. cbn [plus]. rewrite H3.
-    destruct (normalize_built c d 0 neg Hc Hd) as (q & Hq & Hv & Hr). cbn [zeros repeat] in Hq. cbn [repeat].
+    destruct (normalize_built b c d 0 neg Hb Hc Hd) as (q & Hq & Hv & Hr). cbn [zeros repeat] in Hq. cbn [repeat].
     change (ch 47) with slash. rewrite Hq. exists q. split; [reflexivity|]. split; [|assumption].
     rewrite Hv. apply signed_comp. unfold dec_value. rewrite app_nil_r, digits_val_zeros_lead. reflexivity.
 Qed.
 
 (* integer part with a non-zero digit:  0..0 c d1 . D2 0..0 *)
-Lemma s2r_dec_b Z c d1 D2 T neg : is_posdig c = true -> all_digits d1 = true -> all_digits D2 = true -> ends_pos D2 ->
+Lemma s2r_dec_b b Z c d1 D2 T neg : ok_base b -> is_posdig c = true -> all_digits d1 = true -> all_digits D2 = true -> ends_pos D2 ->
   (length D2 + T > 0)%nat ->
-  exists q, s2r_core neg (zeros Z ++ (c :: d1) ++ dot :: D2 ++ zeros T) = StrVal q /\
+  exists q, s2r_core b neg (zeros Z ++ (c :: d1) ++ dot :: D2 ++ zeros T) = StrVal q /\
             (q == signed neg (dec_value (zeros Z ++ c :: d1) (D2 ++ zeros T)))%Q /\ Qred q = q.
 Proof.
-  intros Hc Hd1 HD2 HE Hlen. unfold s2r_core.
+  intros Hb Hc Hd1 HD2 HE Hlen. unfold s2r_core.
   (* pass 1 *)
   rewrite p1_zeros_0. cbn [app p1_run]. rewrite (p1_step_0_pos c _ _ _ Hc).
   rewrite p1_digits_1 by assumption. cbn [p1_run]. rewrite step_dot_1.
@@ -438,7 +445,7 @@ Proof.
     pose proof (p3_copy_digits_true (x :: D2') 0 (zeros T) HD2) as H. rewrite Nat.add_0_r, p3_zero_any in H.
     cbn [option_map] in H. rewrite app_nil_r in H. exact H. }
   rewrite H3. cbn [option_map].
-  destruct (normalize_built c (d1 ++ D2) (length D2) neg Hc) as (q & Hq & Hv & Hr).
+  destruct (normalize_built b c (d1 ++ D2) (length D2) neg Hb Hc) as (q & Hq & Hv & Hr).
   { now rewrite all_digits_app, Hd1, HD2. }
   change (ch 47) with slash. change (repeat (ch 48) (length D2)) with (zeros (length D2)).
   cbn [app] in Hq |- *. rewrite Hq. exists q. split; [reflexivity|]. split; [|assumption].
@@ -447,4 +454,199 @@ Proof.
     by (cbn [app]; rewrite <- !app_assoc; reflexivity).
   rewrite digits_val_zeros_lead, digits_val_zeros_trail, app_length, zeros_length.
   symmetry. apply value_scale.
+Qed.
+
+(* integer part all zeros, fraction with a non-zero digit:  0..0 . 0..0 c D3 0..0 *)
+Lemma s2r_dec_a b Z Z2 c D3 T neg : ok_base b -> is_posdig c = true -> all_digits D3 = true -> ends_pos D3 ->
+  exists q, s2r_core b neg (zeros Z ++ dot :: zeros Z2 ++ (c :: D3) ++ zeros T) = StrVal q /\
+            (q == signed neg (dec_value (zeros Z) (zeros Z2 ++ (c :: D3) ++ zeros T)))%Q /\ Qred q = q.
+Proof.
+  intros Hb Hc HD3 HE. unfold s2r_core.
+  (* pass 1 *)
+  rewrite p1_zeros_0. cbn [p1_run]. rewrite step_dot_0. rewrite p1_zeros_4. cbn [app p1_run].
+  rewrite (p1_step_4_pos c _ _ _ Hc). change 2 with (st23 0).
+  pose proof (p1_digits_23 (D3 ++ zeros T) 1 0 false []) as H1.
+  rewrite app_nil_r in H1. rewrite H1 by (rewrite all_digits_app, HD3, all_digits_zeros; reflexivity). clear H1.
+  rewrite p23_D_zeros by assumption. cbn [p1_run p1_frac p1_nom plus]. cbv iota.
+  (* pass 2 *)
+  set (E := zeros Z2 ++ c :: D3).
+  assert (HEa : all_digits E = true) by (unfold E; rewrite all_digits_app, all_digits_zeros; now apply all_digits_pos).
+  assert (HEe : ends_pos E) by (apply ends_pos_app; assumption).
+  unfold p2_run. fold (p2_from (Build_p2 0 1 0) (zeros Z ++ dot :: zeros Z2 ++ c :: D3 ++ zeros T)).
+  replace (zeros Z ++ dot :: zeros Z2 ++ c :: D3 ++ zeros T) with (zeros Z ++ [dot] ++ (E ++ zeros T))
+    by (unfold E; cbn [app]; rewrite <- !app_assoc; reflexivity).
+  rewrite (p2_from_app _ (zeros Z)), (p2_from_app _ [dot]).
+  rewrite p2_digits_0 by apply all_digits_zeros.
+  change (p2_from (Build_p2 0 1 0) [dot]) with (Build_p2 (st12 0) 1 0).
+  rewrite p2_digits_12 by (rewrite all_digits_app, HEa, all_digits_zeros; reflexivity).
+  rewrite p23_D_zeros by assumption. cbn [p2_den].
+  replace (1 + length E - 1)%nat with (length E) by lia.
+  (* pass 3 *)
+  rewrite p3_skip_zeros. cbn [app]. rewrite p3_skip_dot_false. unfold E. rewrite <- app_assoc, p3_skip_zeros. cbn [app].
+  pose proof (p3_copy_start c D3 0 (zeros T) Hc HD3) as H3. rewrite Nat.add_0_r, p3_zero_any in H3.
+  cbn [option_map] in H3. rewrite app_nil_r in H3. rewrite H3. fold E.
+  destruct (normalize_built b c D3 (length E) neg Hb Hc HD3) as (q & Hq & Hv & Hr).
+  change (ch 47) with slash. change (repeat (ch 48) (length E)) with (zeros (length E)).
+  rewrite Hq. exists q. split; [reflexivity|]. split; [|assumption].
+  rewrite Hv. apply signed_comp. unfold dec_value.
+  change (c :: D3 ++ zeros T) with ((c :: D3) ++ zeros T).
+  replace (zeros Z ++ zeros Z2 ++ (c :: D3) ++ zeros T) with (zeros (Z + Z2) ++ (c :: D3) ++ zeros T)
+    by (rewrite zeros_app, <- !app_assoc; reflexivity).
+  rewrite digits_val_zeros_lead, digits_val_zeros_trail.
+  replace (length (zeros Z2 ++ (c :: D3) ++ zeros T)) with (length E + T)%nat
+    by (unfold E; rewrite !app_length, !zeros_length; cbn [length]; lia).
+  symmetry. apply value_scale.
+Qed.
+
+(* everything zero *)
+Lemma s2r_dec_zero b Z Z2 neg : ok_base b ->
+  exists q, s2r_core b neg (zeros Z ++ dot :: zeros Z2) = StrVal q /\
+            (q == signed neg (dec_value (zeros Z) (zeros Z2)))%Q /\ Qred q = q.
+Proof.
+  intros Hb. unfold s2r_core. rewrite p1_zeros_0. cbn [p1_run]. rewrite step_dot_0.
+  pose proof (p1_zeros_4 Z2 0 0 false []) as H4. rewrite app_nil_r in H4. rewrite H4. cbn [p1_run p1_frac p1_nom].
+  exists 0%Q. split; [now apply normalize_zero|]. split; [|reflexivity].
+  unfold dec_value. rewrite <- zeros_app. rewrite <- (app_nil_r (zeros (Z + Z2))), digits_val_zeros_lead.
+  change (digits_val []) with 0. change (inject_Z (Z.of_N 0)) with 0%Q.
+  assert (E : (0 / pow10Q (length (zeros Z2)) == 0)%Q) by (unfold Qdiv; apply Qmult_0_l).
+  destruct neg; cbn [signed]; rewrite E; reflexivity.
+Qed.
+
+Theorem decimal_value_b b neg ip fp : ok_base b -> ip <> [] -> all_digits ip = true -> all_digits fp = true ->
+  exists q, string_to_rational_b b (sign_str neg ++ ip ++ dot_part fp) = StrVal q /\
+            (q == signed neg (dec_value ip fp))%Q /\ Qred q = q.
+Proof.
+  intros Hb Hne Hip Hfp. rewrite s2r_unfold.
+  destruct ip as [|x ip']; [congruence|].
+  assert (Hx : is_digit x = true) by (rewrite all_digits_cons in Hip; apply andb_true_iff in Hip; tauto).
+  cbn [app]. destruct (sign_strip neg x (ip' ++ dot_part fp) Hx) as [-> ->].
+  change (x :: ip' ++ dot_part fp) with ((x :: ip') ++ dot_part fp).
+  destruct (lead_decomp _ Hip) as (Z & D1 & E1 & HS1 & HA1). rewrite E1.
+  destruct fp as [|y fp'].
+  - cbn [dot_part]. rewrite app_nil_r. apply s2r_int; assumption.
+  - cbn [dot_part]. destruct HS1 as [->|(c & d1 & -> & Hc)].
+    + rewrite app_nil_r. destruct (lead_decomp _ Hfp) as (Z2 & F & E2 & HS2 & HA2). rewrite E2.
+      destruct HS2 as [->|(c & f & -> & Hc)].
+      * rewrite app_nil_r. now apply s2r_dec_zero.
+      * rewrite all_digits_cons in HA2. apply andb_true_iff in HA2. destruct HA2 as [_ Hf].
+        destruct (trail_decomp _ Hf) as (D3 & T & E3 & HE3 & HA3). rewrite E3.
+        change (c :: D3 ++ zeros T) with ((c :: D3) ++ zeros T). apply s2r_dec_a; assumption.
+    + rewrite all_digits_cons in HA1. apply andb_true_iff in HA1. destruct HA1 as [_ Hd1].
+      destruct (trail_decomp _ Hfp) as (D2 & T & E2 & HE2 & HA2). rewrite E2.
+      rewrite <- app_assoc. apply s2r_dec_b; try assumption.
+      apply (f_equal (@length _)) in E2. rewrite app_length, zeros_length in E2. cbn [length] in E2. lia.
+Qed.
+
+(* ---- fractions ---------------------------------------------------------------------------------- *)
+Lemma p1_step_5_digit c n z f : is_digit c = true -> p1_step (Build_p1 5 n z f) c = Some (Build_p1 5 n z f).
+Proof. intros H. unfold p1_step. cbn [N.eqb Pos.eqb andb]. now rewrite H. Qed.
+Lemma p1_digits_5 d : forall n z f, all_digits d = true -> p1_run (Build_p1 5 n z f) d = Some (Build_p1 5 n z f).
+Proof.
+  induction d as [|c d IH]; intros n z f H; [reflexivity|].
+  rewrite all_digits_cons in H. apply andb_true_iff in H. destruct H as [Hc Hd]. cbn [p1_run].
+  rewrite p1_step_5_digit by assumption. now apply IH.
+Qed.
+Lemma step_slash_1 n z f : p1_step (Build_p1 1 n z f) slash = Some (Build_p1 5 n z true). Proof. reflexivity. Qed.
+
+Lemma digits_val_pos c d : is_posdig c = true -> 0 < digits_val (c :: d).
+Proof.
+  intros Hc. change (c :: d) with ([c] ++ d). rewrite digits_val_app.
+  assert (0 < digits_val [c]).
+  { unfold digits_val, digits_val_acc. cbn. unfold digit_val. unfold is_posdig in Hc. lia. }
+  assert (0 < 10 ^ N.of_nat (length d)) by (apply N.neq_0_lt_0, N.pow_nonzero; discriminate). nia.
+Qed.
+
+Theorem fraction_value_nolead_b b neg c n' c2 d' : ok_base b ->
+  is_posdig c = true -> all_digits n' = true -> is_posdig c2 = true -> all_digits d' = true ->
+  exists q, string_to_rational_b b (sign_str neg ++ (c :: n') ++ slash :: c2 :: d') = StrVal q /\
+            (q == signed neg (frac_value (c :: n') (c2 :: d')))%Q /\ Qred q = q.
+Proof.
+  intros Hb Hc Hn Hc2 Hd. rewrite s2r_unfold. cbn [app].
+  destruct (sign_strip neg c (n' ++ slash :: c2 :: d') (posdig_digit c Hc)) as [-> ->].
+  unfold s2r_core. cbn [p1_run]. rewrite (p1_step_0_pos c _ _ _ Hc).
+  rewrite p1_digits_1 by assumption.
+  change (p1_run ?t (slash :: ?r)) with (match p1_step t slash with Some t' => p1_run t' r | None => None end).
+  rewrite step_slash_1.
+  rewrite p1_digits_5 by (now apply all_digits_pos). cbn [p1_frac].
+  unfold normalize_b, mpq_set_str. change (c :: n' ++ slash :: c2 :: d') with ((c :: n') ++ slash :: c2 :: d').
+  rewrite split_slash_digits by (now apply all_digits_pos).
+  rewrite !mpz_set_str_pos by assumption. cbn [snd].
+  pose proof (digits_val_pos c2 d' Hc2) as Hpos. unfold mpq_canon.
+  destruct (digits_val (c2 :: d')) as [|p] eqn:E; [lia|]. cbn [Z.of_N].
+  eexists. split; [reflexivity|]. split.
+  - unfold frac_value. rewrite E. cbn [Z.of_N]. destruct neg; cbn [signed]; rewrite !Qred_correct, Qmake_div; reflexivity.
+  - destruct neg; apply Qred_complete, Qred_correct.
+Qed.
+
+(* ---- the tree's variant (base regenerated from NumberUtils.h) --------------------------------------- *)
+Lemma tree_base_ok : ok_base normalize_base.
+Proof. first [left; reflexivity | right; reflexivity]. Qed.
+
+Theorem decimal_value_shape neg ip fp : ip <> [] -> all_digits ip = true -> all_digits fp = true ->
+  exists q, string_to_rational (sign_str neg ++ ip ++ dot_part fp) = StrVal q /\
+            (q == signed neg (dec_value ip fp))%Q /\ Qred q = q.
+Proof. apply decimal_value_b, tree_base_ok. Qed.
+
+Theorem fraction_value_nolead neg c n' c2 d' :
+  is_posdig c = true -> all_digits n' = true -> is_posdig c2 = true -> all_digits d' = true ->
+  exists q, string_to_rational (sign_str neg ++ (c :: n') ++ slash :: c2 :: d') = StrVal q /\
+            (q == signed neg (frac_value (c :: n') (c2 :: d')))%Q /\ Qred q = q.
+Proof. apply fraction_value_nolead_b, tree_base_ok. Qed.
+
+(* ---- the repaired variant: base 10 reads every fraction of digit strings exactly -------------------- *)
+Lemma skip_zeros_lead Z D : starts_pos D -> skip_zeros_spaces (zeros Z ++ D) = D.
+Proof.
+  intros HD. induction Z as [|Z IH]; cbn [zeros repeat app].
+  - destruct HD as [->|(c & d & -> & Hc)]; [reflexivity|]. cbn [skip_zeros_spaces].
+    now rewrite (posdig_nz c Hc), (posdig_nspace c Hc).
+  - cbn [skip_zeros_spaces]. exact IH.
+Qed.
+
+Lemma mpz_set_str_digits10 x r : all_digits (x :: r) = true ->
+  mpz_set_str (x :: r) 10 = Some (Z.of_N (digits_val (x :: r))).
+Proof.
+  intros HA. pose proof HA as HA'. rewrite all_digits_cons in HA'. apply andb_true_iff in HA'. destruct HA' as [Hx Hr].
+  unfold mpz_set_str. destruct (tests_digit x Hx) as (_ & _ & Hm & Hs).
+  cbn [skip_spaces]. rewrite Hs. cbn [has_minus strip_minus]. rewrite Hm.
+  destruct (gmp_digit_digit x Hx) as [-> Hlt]. cbn [N.eqb Pos.eqb].
+  replace (10 <=? digit_val x) with false by (symmetry; apply N.leb_gt; exact Hlt).
+  destruct (lead_decomp _ HA) as (Z & D & E & HS & HD). rewrite E, skip_zeros_lead by assumption.
+  rewrite digits_val_zeros_lead. destruct D as [|c d]; [reflexivity|].
+  rewrite gmp_digits_10 by assumption. reflexivity.
+Qed.
+
+Lemma step_slash_0 n z f : p1_step (Build_p1 0 n z f) slash = Some (Build_p1 5 n z true). Proof. reflexivity. Qed.
+
+Lemma p1_numerator n : n <> [] -> all_digits n = true -> forall r,
+  exists nom, p1_run (Build_p1 0 0 0 false) (n ++ slash :: r) = p1_run (Build_p1 5 nom 0 true) r.
+Proof.
+  intros _ Hn r. destruct (lead_decomp _ Hn) as (Z & D & -> & [->|(c & d & -> & Hc)] & HD).
+  - rewrite app_nil_r, p1_zeros_0.
+    change (p1_run ?t (slash :: ?r)) with (match p1_step t slash with Some t' => p1_run t' r | None => None end).
+    rewrite step_slash_0. eauto.
+  - rewrite all_digits_cons in HD. apply andb_true_iff in HD. destruct HD as [_ Hd].
+    rewrite <- app_assoc, p1_zeros_0. cbn [app p1_run]. rewrite (p1_step_0_pos c _ _ _ Hc).
+    rewrite p1_digits_1 by assumption.
+    change (p1_run ?t (slash :: ?r)) with (match p1_step t slash with Some t' => p1_run t' r | None => None end).
+    rewrite step_slash_1. eauto.
+Qed.
+
+Theorem fraction_value_base10 neg n d : n <> [] -> d <> [] -> all_digits n = true -> all_digits d = true ->
+  digits_val d <> 0 ->
+  exists q, string_to_rational_b 10 (sign_str neg ++ n ++ slash :: d) = StrVal q /\
+            (q == signed neg (frac_value n d))%Q /\ Qred q = q.
+Proof.
+  intros Hnn Hdn Hn Hd Hd0. rewrite s2r_unfold.
+  destruct n as [|x n']; [congruence|]. destruct d as [|y d']; [congruence|].
+  assert (Hx : is_digit x = true) by (rewrite all_digits_cons in Hn; apply andb_true_iff in Hn; tauto).
+  cbn [app]. destruct (sign_strip neg x (n' ++ slash :: y :: d') Hx) as [-> ->].
+  change (x :: n' ++ slash :: y :: d') with ((x :: n') ++ slash :: y :: d').
+  unfold s2r_core. destruct (p1_numerator (x :: n') Hnn Hn (y :: d')) as [nom ->].
+  rewrite p1_digits_5 by assumption. cbn [p1_frac].
+  unfold normalize_b, mpq_set_str. rewrite split_slash_digits by assumption.
+  rewrite !mpz_set_str_digits10 by assumption. cbn [snd]. unfold mpq_canon.
+  destruct (digits_val (y :: d')) as [|p] eqn:E; [congruence|]. cbn [Z.of_N].
+  eexists. split; [reflexivity|]. split.
+  - unfold frac_value. rewrite E. cbn [Z.of_N]. destruct neg; cbn [signed]; rewrite !Qred_correct, Qmake_div; reflexivity.
+  - destruct neg; apply Qred_complete, Qred_correct.
 Qed.
